@@ -177,7 +177,7 @@ def r2_convert_first(rep, ctx):
             roles = all(len(a[2]) == 2 and a[2][0] == ("param", val_i, "value") and all(x[0] == "attr" and x[2] == "default_unit" for x in alternatives(a[2][1])) for a in conv)
             rep.check(ok and roles, "C12.R2", "CheckValue:%s" % norm(ast.unparse(c)), "the compared value is the argument converted to the category's default unit (or the argument itself when the unit already is the default)",
                       "CheckValue compares %s: %s" % (show(t, 100), "the limit is compared with the unconverted value" if not conv else "the conversion does not go from the own unit to the default unit"), node=c, fn=fn)
-    rep.floor("C12.R2", "limit comparisons", n, 4)
+    rep.floor("C12.R2", "limit comparisons", n, 2)
     # the guard of the conversion: own unit vs default unit of the same CategoryInfo the limits come from
     conv_st = [st for st in own_statements(fn.node) if isinstance(st, ast.Assign) and isinstance(st.value, ast.Call) and isinstance(st.value.func, ast.Attribute) and st.value.func.attr in ("ConvertScalarValue", "Convert")]
     if len(conv_st) != 1:
@@ -296,7 +296,7 @@ def r4_memo(rep, ctx):
                 ok = is_self and fn.cls == "Array" and fn.name in ("_InternalCreateWithQuantity", "ValidateValues")
                 rep.check(ok, "C12.R4", "%s:%s:%d" % (fn.qual.split(".", 2)[-1], x.attr, n), "validity memo written by %s" % fn.name,
                           "the validity memo is written by %s%s: a cached verdict can describe other values / another category than the object's" % (fn.qual.split(".", 2)[-1], "" if is_self else " on another object"), node=x, fn=fn)
-    rep.floor("C12.R4", "stores of the validity memo", n, 5)
+    rep.floor("C12.R4", "stores of the validity memo", n, 2)
     vv = m.method("Array", "ValidateValues")
     cfg = CFG(vv.node)
     # _is_valid = True only after _DoValidateValues returned; False/exception only in its handler
@@ -369,7 +369,7 @@ def r6_registration(rep, ctx, RID="C12.R6"):
     for a in own_nodes(fn.node):
         if isinstance(a, ast.Assert) and isinstance(a.test, ast.Compare) and isinstance(a.test.left, ast.Name) and a.test.left.id == "default_value":
             asserts.append(a)
-    rep.floor(RID, "default-value assertions", len(asserts), 4)
+    rep.floor(RID, "default-value assertions", len(asserts), 2)
     # (1) no re-definition of the asserted variables between an assertion and the construction
     for a in asserts:
         after = cfg.reach(cfg.node_of(a))
